@@ -113,6 +113,19 @@ def run_unit(arg):
                     w = selftest.search_witness(repo, c, seed, n=3000)
                 except BaseException:  # noqa
                     w = None
+                if not (w is not None and w.get("confirmed")):
+                    # ... and the contract's own witnesses (`witness_*()`: inputs from the property's quantifier) are
+                    # replayed natively on the real function
+                    dw = {}
+                    try:
+                        if _try_contract_witnesses(c, dw):
+                            out["obligations"].append({
+                                "name": f"{c.target}/contract-witness", "kind": "bounded", "verdict": "refuted", "tool": "contract witness",
+                                "budget": "the contract's witness_* inputs", "replay": dw.get("replay"), "witness_confirmed": True,
+                                "model_inputs": dw.get("model_inputs"),
+                                "note": f"bounded: body outside the verified subset ({e});" + (dw.get("note") or "")})
+                    except BaseException:  # noqa
+                        pass
                 if w is not None and w.get("confirmed"):
                     out["obligations"].append({
                         "name": f"{c.target}/native-search", "kind": "bounded", "verdict": "refuted", "tool": "native search",
